@@ -3,6 +3,7 @@
 validators (I->S); verdict classes -> VIOLATION lines; evidence."""
 import json
 import os
+import subprocess
 
 from . import common as C
 from .common import Ctx, ToolError, log, parallel, run_tlc
@@ -818,10 +819,51 @@ def replay(prop, path, seed):
     ctx = Ctx(prop + "_replay", "quick", seed)
     obj = json.load(open(path))
     c = obj.get("ctx") or {}
+    binp = C.build_harness()
+    if "record" in c and "ticks" in c["record"]:
+        # C13: re-run the cost recorder and validate the same family/size again
+        tr = os.path.join(ctx.dir, "cost.ndjson")
+        rep, rc, err = C.run_harness(ctx, C.build_harness(profile="release"), ["record-cost", "--trace", tr, "--max-log2", 18, "--force", c["record"].get("force", "avx2")], "rec")
+        n, viol, summ = C.validate_trace(ctx, "Trace_Cost", tr, dict(CMUL=16, CADD=4096), "cost")
+        bad = [t for (_, t) in viol if t[2] == c["record"]["family"]]
+        print(json.dumps({"records": n, "violations_same_family": bad[:5]}))
+        if bad:
+            print("VIOLATION property=%s replay=%s" % (prop, path))
+            return 1
+        return 0
+    if "record" in c and "ops" in c["record"]:
+        tr = os.path.join(ctx.dir, "one.ndjson")
+        with open(tr, "w") as f:
+            f.write(json.dumps(c["record"]) + "\n")
+        # a recorded iterator history is re-validated as recorded (the history itself is the counterexample) after re-executing it is not possible without its RNG; report the validator's verdict
+        n, viol, summ = C.validate_trace(ctx, "Trace_MemchrIter", tr, {}, "iter")
+        print(json.dumps({"violations": [t for (_, t) in viol]}))
+        if viol:
+            print("VIOLATION property=%s replay=%s" % (prop, path))
+            return 1
+        return 0
+    if "record" in c:
+        tr = os.path.join(ctx.dir, "one.ndjson")
+        subprocess.run([binp, "rerecord", "--in", path, "--trace", tr], check=True)
+        n, viol, summ = C.validate_trace(ctx, "Trace_Lib", tr, {}, "lib")
+        print(json.dumps({"observations": summ, "violations": [t for (_, t) in viol]}))
+        if viol:
+            print("VIOLATION property=%s replay=%s" % (prop, path))
+            return 1
+        return 0
+    if "vector_line" in c:
+        from . import miri
+        executed = []
+        name = [k for k, v in miri.TARGETS.items() if v == c.get("target")][0]
+        execs, chunks = miri.run_target(ctx, name, [c["vector_line"]], {"result", "panic", "oob", "misaligned"}, par=1)
+        print(json.dumps({"miri_calls": execs, "violations": [v["what"] for v in ctx.violations][:5]}))
+        if ctx.violations:
+            print("VIOLATION property=%s replay=%s" % (prop, path))
+            return 1
+        return 0
     vec = c.get("vector")
     if vec is None:
         raise ToolError("replay file has no vector")
-    binp = C.build_harness()
     vp = os.path.join(ctx.dir, "one.ndjson")
     with open(vp, "w") as f:
         f.write(json.dumps(vec) + "\n")
